@@ -16,22 +16,46 @@ Inductive hls_resp :=
 | HrBlocked              (* black-listed: 404, handler not reached *)
 | HrAuthFail             (* simple auth failed: empty answer, neither black-list nor handler reached *)
 | HrNoSession            (* sub-session mode: unknown session_id, 404 *)
-| HrRedirect (sid : bytes). (* sub-session mode: a session is created, 302 to the same URL plus session_id=sid *)
+| HrRedirect (sid : bytes) (* sub-session mode: a session is created, 302 to the same URL plus session_id=sid *)
+| HrKick (ok : bool)     (* answer of /api/ctrl/kick_session: session found (and disposed) or not *)
+| HrListed (n : N).      (* number of HLS sub sessions the stat API lists *)
 
 Definition s_session_id : bytes := [115; 101; 115; 115; 105; 111; 110; 95; 105; 100].   (* "session_id" *)
 
-(* black-list + hls.ServerHandler.sessionMap (ids) + number of sessions created so far *)
-Record hls_state := mk_hls_state { hs_bl : bl_table; hs_sessions : list bytes; hs_next : N }.
+(* hls.SubSession as far as the handler looks at it: id (sessionIdHash), LastRequestTime
+   (unix ms), disposedFlag *)
+Record hsess := mk_hsess { hx_id : bytes; hx_last : Z; hx_disposed : bool }.
+
+(* black-list + hls.ServerHandler.sessionMap (= the group's hls sub session set) + number of
+   sessions created so far *)
+Record hls_state := mk_hls_state { hs_bl : bl_table; hs_sessions : list hsess; hs_next : N }.
 Definition hls_state0 : hls_state := mk_hls_state [] [] 0.
 
 (* the id of the n-th session (the real one is md5(unique key + hash key); the harness
    maps it to this name) *)
 Definition new_session_id (n : N) : bytes := 64 :: dec n.
 
-Fixpoint mem_bytes (x : bytes) (l : list bytes) : bool :=
-  match l with [] => false | y :: t => beq y x || mem_bytes x t end.
-Fixpoint remove_bytes (x : bytes) (l : list bytes) : list bytes :=
-  match l with [] => [] | y :: t => if beq y x then remove_bytes x t else y :: remove_bytes x t end.
+Fixpoint sess_mem (x : bytes) (l : list hsess) : bool :=
+  match l with [] => false | y :: t => beq (hx_id y) x || sess_mem x t end.
+Fixpoint sess_remove (x : bytes) (l : list hsess) : list hsess :=
+  match l with [] => [] | y :: t => if beq (hx_id y) x then sess_remove x t else y :: sess_remove x t end.
+(* keepSessionAlive: KeepAlive() on the session found - it does not look at the disposed flag *)
+Fixpoint sess_touch (x : bytes) (now_ms : Z) (l : list hsess) : list hsess :=
+  match l with
+  | [] => []
+  | y :: t => if beq (hx_id y) x then mk_hsess (hx_id y) now_ms (hx_disposed y) :: sess_touch x now_ms t
+              else y :: sess_touch x now_ms t
+  end.
+(* Group.KickSession -> SubSession.Dispose(): the flag is set, nothing else *)
+Fixpoint sess_dispose (x : bytes) (l : list hsess) : list hsess :=
+  match l with
+  | [] => []
+  | y :: t => if beq (hx_id y) x then mk_hsess (hx_id y) (hx_last y) true :: sess_dispose x t
+              else y :: sess_dispose x t
+  end.
+(* clearExpireSession at time t_ms: IsExpired() || IsDisposed() *)
+Definition sess_sweep (timeout_ms t_ms : Z) (l : list hsess) : list hsess :=
+  filter (fun y => negb (hx_disposed y || (hx_last y + timeout_ms <? t_ms)%Z)) l.
 
 Section ServeHls.
   Variable md5raw : bytes -> bytes.
@@ -42,26 +66,29 @@ Section ServeHls.
 
   Definition session_id_of (query : bytes) : bytes := query_get (parse_query_all query) s_session_id.
 
-  (* ServeHTTPWithUrlCtx *)
-  Definition hls_handler (sub_on : bool) (root : bytes) (st : hls_state) (path query : bytes)
+  (* ServeHTTPWithUrlCtx at time now_ms *)
+  Definition hls_handler (sub_on : bool) (root : bytes) (st : hls_state) (now_ms : Z) (path query : bytes)
     : hls_state * hls_resp :=
     let ftype := snd (filename_and_type (last_item_of_path path)) in
     let serve := match hls_serve_file path root with Some p => HrFile p | None => HrInvalid end in
+    let alive sid :=
+      if sess_mem sid (hs_sessions st)
+      then (mk_hls_state (hs_bl st) (sess_touch sid now_ms (hs_sessions st)) (hs_next st), serve)
+      else (st, HrNoSession) in
     if sub_on then
       let sid := session_id_of query in
-      if beq ftype s_ts && negb (is_empty sid) then
-        (st, if mem_bytes sid (hs_sessions st) then serve else HrNoSession)
+      if beq ftype s_ts && negb (is_empty sid) then alive sid
       else if beq ftype s_m3u8 then
-        if negb (is_empty sid) then
-          (st, if mem_bytes sid (hs_sessions st) then serve else HrNoSession)
+        if negb (is_empty sid) then alive sid
         else
           let sid' := new_session_id (hs_next st) in
-          (mk_hls_state (hs_bl st) (sid' :: hs_sessions st) (hs_next st + 1), HrRedirect sid')
+          (mk_hls_state (hs_bl st) (mk_hsess sid' now_ms false :: hs_sessions st) (hs_next st + 1), HrRedirect sid')
       else (st, serve)
     else (st, serve).
 
-  (* serveHls for a request with decoded path [path], raw query [query] from address [ip] at time [now] *)
-  Definition serve_hls (cfg : sa_config) (sub_on : bool) (root : bytes) (st : hls_state) (now : Z)
+  (* serveHls for a request with decoded path [path], raw query [query] from address [ip] at
+     time [now_ms] (the black-list works on whole unix seconds) *)
+  Definition serve_hls (cfg : sa_config) (sub_on : bool) (root : bytes) (st : hls_state) (now_ms : Z)
     (ip path query : bytes) : hls_state * hls_resp :=
     let ftype := snd (filename_and_type (last_item_of_path path)) in
     let auth_ok :=
@@ -73,25 +100,53 @@ Section ServeHls.
       else true in
     if negb auth_ok then (st, HrAuthFail)
     else
-      let '(t', b) := bl_has (hs_bl st) ip now in
+      let '(t', b) := bl_has (hs_bl st) ip (now_ms / 1000)%Z in
       if b then
         (* CloseSubSessionIfExist *)
-        (mk_hls_state t' (remove_bytes (session_id_of query) (hs_sessions st)) (hs_next st), HrBlocked)
-      else hls_handler sub_on root (mk_hls_state t' (hs_sessions st) (hs_next st)) path query.
+        (mk_hls_state t' (sess_remove (session_id_of query) (hs_sessions st)) (hs_next st), HrBlocked)
+      else hls_handler sub_on root (mk_hls_state t' (hs_sessions st) (hs_next st)) now_ms path query.
 
   Inductive sh_op :=
   | ShGet (ip path query : bytes)
   | ShBlacklist (ip : bytes) (dur : Z)      (* /api/ctrl/add_ip_blacklist *)
-  | ShSleep (sec : Z).
+  | ShSleep (sec : Z)                       (* the clock advances by whole seconds; ServerHandler.runLoop sweeps once a second *)
+  | ShKick (sid : bytes)                    (* /api/ctrl/kick_session for the HLS sub session with this id *)
+  | ShList.                                 (* stat API *)
 
-  Fixpoint sh_run (cfg : sa_config) (sub_on : bool) (root : bytes) (st : hls_state) (now : Z) (ops : list sh_op)
-    : list hls_resp :=
+  (* the one sweep inside (now_ms, now_ms + 1000]: the ticker fires at the times = phase (mod 1000) *)
+  Definition next_tick (phase now_ms : Z) : Z := (now_ms + ((phase - now_ms - 1) mod 1000) + 1)%Z.
+
+  Fixpoint advance_secs (n : nat) (timeout_ms phase : Z) (l : list hsess) (now_ms : Z) : list hsess * Z :=
+    match n with
+    | O => (l, now_ms)
+    | S k => advance_secs k timeout_ms phase (sess_sweep timeout_ms (next_tick phase now_ms) l) (now_ms + 1000)%Z
+    end.
+
+  Definition sh_step (cfg : sa_config) (sub_on : bool) (root : bytes) (timeout_ms phase : Z)
+    (st : hls_state) (now_ms : Z) (o : sh_op) : hls_state * Z * option hls_resp :=
+    match o with
+    | ShGet ip path query =>
+        let '(st', resp) := serve_hls cfg sub_on root st now_ms ip path query in (st', now_ms, Some resp)
+    | ShBlacklist ip dur =>
+        (mk_hls_state (bl_add (hs_bl st) ip dur (now_ms / 1000)%Z) (hs_sessions st) (hs_next st), now_ms, None)
+    | ShSleep s =>
+        let '(l, t) := advance_secs (Z.to_nat s) timeout_ms phase (hs_sessions st) now_ms in
+        (mk_hls_state (hs_bl st) l (hs_next st), t, None)
+    | ShKick sid =>
+        (mk_hls_state (hs_bl st) (sess_dispose sid (hs_sessions st)) (hs_next st), now_ms,
+         Some (HrKick (sess_mem sid (hs_sessions st))))
+    | ShList => (st, now_ms, Some (HrListed (lenN (hs_sessions st))))
+    end.
+
+  Fixpoint sh_run (cfg : sa_config) (sub_on : bool) (root : bytes) (timeout_ms phase : Z)
+    (st : hls_state) (now_ms : Z) (ops : list sh_op) : list hls_resp :=
     match ops with
     | [] => []
-    | ShGet ip path query :: r =>
-        let '(st', resp) := serve_hls cfg sub_on root st now ip path query in resp :: sh_run cfg sub_on root st' now r
-    | ShBlacklist ip dur :: r =>
-        sh_run cfg sub_on root (mk_hls_state (bl_add (hs_bl st) ip dur now) (hs_sessions st) (hs_next st)) now r
-    | ShSleep s :: r => sh_run cfg sub_on root st (now + s)%Z r
+    | o :: r =>
+        let '(st', t, resp) := sh_step cfg sub_on root timeout_ms phase st now_ms o in
+        match resp with
+        | Some x => x :: sh_run cfg sub_on root timeout_ms phase st' t r
+        | None => sh_run cfg sub_on root timeout_ms phase st' t r
+        end
     end.
 End ServeHls.
